@@ -244,7 +244,9 @@ func (s *StakeShadow) Advance(e *Env, blk *world.BlockRecord) {
 				case "stake":
 					s.Stakes[addr] = s.Stakes[addr].Add(meta.Coins...)
 				case "unstake":
-					s.Stakes[addr] = s.Stakes[addr].Sub(meta.Coins...)
+					if s.Stakes[addr].IsAllGTE(meta.Coins) { // otherwise the chain accepted what is impossible: C16's monitor reports it
+						s.Stakes[addr] = s.Stakes[addr].Sub(meta.Coins...)
+					}
 				}
 				if v, ok := s.Deleg[addr][meta.Val]; ok && v.IsZero() {
 					delete(s.Deleg[addr], meta.Val)
@@ -481,6 +483,21 @@ func (a *StakeActor) Act(e *Env) {
 		e.Submit(u, "restake_stake", &stakeOpMeta{Kind: "stake", Addr: u, Coins: c, Aim: "free"}, restaketypes.NewMsgStake(u.Addr, c))
 	case 4: // unstake
 		st := sh.Stakes[addr]
+		if e.Ch.Bool("stake.unstake.notheld", 120) {
+			// a denom the account has no stake in (others may): nothing of it is the account's to take out
+			var cand []string
+			for _, d := range a.Denoms {
+				if st.AmountOf(d).IsZero() {
+					cand = append(cand, d)
+				}
+			}
+			if len(cand) > 0 {
+				c := sdk.NewCoins(sdk.NewInt64Coin(cand[e.Ch.Intn("stake.unstake.notheld.denom", len(cand))], int64(1+e.Ch.Intn("stake.unstake.notheld.amt", 500))))
+				e.St.Fault("unstake_of_a_denom_the_account_has_not_staked")
+				e.Submit(u, "restake_unstake", &stakeOpMeta{Kind: "unstake", Addr: u, Coins: c, Aim: "not_staked"}, restaketypes.NewMsgUnstake(u.Addr, c))
+				return
+			}
+		}
 		if st.Empty() {
 			return
 		}
